@@ -41,10 +41,10 @@ class PathResolver:
             Path relative to project root, or original path if outside project
         """
         try:
-            if file_path.is_absolute():
-                return file_path.relative_to(self.project_root)
-            return file_path
-        except ValueError:
+            # Resolve first: a relative target is relative to the working directory, which
+            # need not be the project root (e.g. "proj/src" from the parent, ".." from a sub-directory)
+            return file_path.resolve().relative_to(self.project_root.resolve())
+        except (ValueError, OSError):
             # If path is outside project root, return it as-is
             # This allows detection of absolute paths in global_deny patterns
             return file_path
